@@ -128,6 +128,10 @@ kf("C05", "C05-forward-call-inside-bitcast", 'forward call inside a bitcast oper
    ["C05|F8h/fn/any/bitcast*|*|malformed-output:undeclared identifier*"], "fixed:8f85c46")
 
 # ---------------------------------------------------------------- C10 (robustness)
+kf("C10", "C10-dxil-helper-local-tables-nil", "dxil.Compile panicked (assignment to entry in nil map, Emitter.preAllocateLocalVars) on a helper function with a promotable local (`let g = g(0) * 2;` in a switch clause): helper functions are emitted before the entry point creates the local-variable promotion tables",
+   ["C10|panic|dxil|assignment to entry in nil map|dxil/internal/emit.(*Emitter).preAllocateLocalVars"], "fixed:6c4e843")
+kf("C10", "C10-lower-global-init-alias-constructor", "`var<private> gv: V2 = V2(1, 2);` with `alias V2 = vec2<i32>;` declared between the entry point and the variable (24 of the 120 declaration orders) panics in Lowerer.buildGlobalExprFromAST: the alias name resolves to a type handle beyond the type arena (index out of range)",
+   ["C10|panic|parse+lower|runtime error: index out of range [#] with length #|wgsl/internal/lower.(*Lowerer).buildGlobalExprFromAST"])
 kf("C10", "C10-swizzle-chain-exponential", "a chained swizzle `v.xyzw.xyzw...` makes lowering time and memory grow exponentially: 64 links (under 400 bytes of source) exceed the CPU cap or, on a faster machine, exhaust the 4 GiB address-space limit first (out of memory in Lowerer.addExpressionRaw)",
    ["C10|cpu-cap|ladder:swizzle-chain n=*", "C10|fatal|out of memory|wgsl/internal/lower.(*Lowerer).addExpressionRaw"])
 kf("C10", "C10-glsl-zero-init-oom", "GLSL writer expands the zero value of a huge private/function array element by element (zeroInitValue): `var<private> a: array<i32, 2147483647>` dies with out-of-memory; so does `array<i32, -1>` (a negative size is accepted and becomes 4294967295 elements), in every host the C11 programs put it in",
